@@ -60,7 +60,7 @@ class C13(Prop):
     rule = ("exhaustive: all profiles of <= 3 distinct orders over 3 alternatives and <= 2 over 4; random m<=6, n<=5 "
             "against brute force over spanning trees; planted tree-single-peaked profiles up to m=25 and one-swap "
             "perturbations; non-trivial = >= 2 orders and >= 3 alternatives")
-    budget = {"quick": 250, "thorough": 2500}
+    budget = {"quick": 250, "thorough": 20000}
     anchors = [("preflibtools.properties.subdomains.ordinal.singlepeaked.single_peaked_tree", n) for n in
                ("is_single_peaked_on_tree", "get_B", "get_bottom_alts", "restrict_preferences")]
 
